@@ -42,6 +42,7 @@ type c03conn struct {
 type c03ident struct {
 	id      int64
 	secret  string
+	unknown bool // an id no client record exists for (phase-2 target only; never in the list of identities)
 	expired bool
 	legacy  bool // stored record has no encrypted key (un-migrated client): nobody can prove this identity
 }
@@ -50,7 +51,7 @@ func init() {
 	Register(&Scenario{
 		ID:    "C03",
 		Level: "exploration",
-		Rule: "each run wires a real server node and draws a history of 3-12 handshake messages over 1-3 connections from 1-2 addresses: first-connect, phase-1 for {own, other, unknown, 0, negative} ids, phase-2 with {correct HMAC of the latest challenge, of an older challenge, under another client's key, a replayed accepted response, garbage}, control or tunnel type, interleaved with address bans, blacklisting, credential expiry (clock +31 days) and reconnects. " +
+		Rule: "each run wires a real server node and draws a history of 3-12 handshake messages over 1-3 connections from 1-2 addresses: first-connect, phase-1 for {own, other, unknown, 0, negative} ids, phase-2 with {correct HMAC of the latest challenge, of an older challenge, under another client's key, a replayed accepted response, an unregistered id answered under a real client's key, garbage}, a sixth of them while the node's storage operations fail, control or tunnel type, interleaved with address bans, blacklisting, credential expiry (clock +31 days) and reconnects. " +
 			"After every server reply the connection's server-side authentication state and the by-client lookup are compared with a reference state machine. Non-trivial: at least one phase-2 message was sent after a challenge; distinct = distinct schedule hashes of such runs.",
 		Real: []string{"internal/app/server ServerAuthHandler", "internal/protocol/session SessionManager handshake path, client registry, BaseAdapter read loop", "internal/security SecretKeyManager/BruteForceProtector/IPManager/RateLimiter", "internal/cloud anonymous service + repos on the memory storage backend", "internal/stream StreamProcessor on both ends"},
 		Stub: []string{"transport: simnet link", "peer: scripted client computing HMAC-SHA256 with the standard library"},
@@ -275,8 +276,23 @@ func c03Run(w *simrt.World, tier string) {
 				} else {
 					response, rdesc = "zz", "garbage"
 				}
+			case 5:
+				// an id nobody registered, answered under the key of a real client (e.g. the one phase 1 named)
+				if cc.challenge != "" {
+					target = &c03ident{id: 77000000 + int64(c.Intn(1000, "p2.unknown")), secret: target.secret, unknown: true}
+					response, rdesc = simnode.HMAC(target.secret, cc.challenge), "unknown-id-known-key"
+				} else {
+					response, rdesc = "x", "garbage"
+				}
 			default:
 				response, rdesc = "x", "garbage"
+			}
+			// storage trouble while this message is handled (a sixth of the phase-2 messages): every storage
+			// operation of the node, or every other one, fails until the reply is in
+			storeFault := c.Intn(6, "p2.storefault") == 5
+			if storeFault {
+				st.FailNum, st.FailDen = 1, 1+c.Intn(2, "p2.storefault.den")
+				rdesc += "+store-fault"
 			}
 			ct := cc.ctype
 			if ct == "" {
@@ -287,10 +303,28 @@ func c03Run(w *simrt.World, tier string) {
 			// that lock-out is right; here it only excuses a refusal)
 			autoBan, _ := node.BF.IsBanned(ipOf(cc.addr))
 			resp, ok := cc.cl.Handshake(&packet.HandshakeRequest{ClientID: target.id, Version: "3", Protocol: "tcp", ConnectionType: ct, ChallengeResponse: response})
+			st.FailNum, st.FailDen = 0, 0
 			hist = append(hist, fmt.Sprintf("%s phase2 id=%d resp=%s → ok=%v %s", cc.cl.Name, target.id, rdesc, ok, c03resp(resp)))
 			phase2 = phase2 || chalBefore != ""
+			if storeFault {
+				w.Probe("phase2.store-fault")
+				// under storage errors a valid proof may be refused, an invalid one must still never be accepted;
+				// whether the challenge was consumed is not observable, so a refused connection is given up
+				if ok && resp.Success && !(valid && !banned[ipOf(cc.addr)] && !target.expired && !autoBan) {
+					w.Violationf("C03:accepted:"+rdesc+c03why(banned[ipOf(cc.addr)], target.expired), "phase-2 with %s response was accepted for client %d while storage operations failed\n%s", rdesc, target.id, strings.Join(hist, "\n"))
+					return
+				}
+				if !ok || !resp.Success {
+					cc.cl.Close()
+					cc.closed = true
+					cc.authedAs = 0
+					hist = append(hist, cc.cl.Name+" gives up after a refusal under storage errors")
+					w.Sleep(time.Second)
+					continue
+				}
+			}
 			// any phase-2 attempt that reaches verification consumes the challenge
-			refusedEarly := banned[ipOf(cc.addr)] || target.expired || autoBan
+			refusedEarly := banned[ipOf(cc.addr)] || target.expired || autoBan || target.unknown
 			if !refusedEarly {
 				cc.challenge = ""
 				if chalBefore != "" {
